@@ -62,7 +62,7 @@ func cacheKey(uri, parentURI string) string {
 
 	fileName := strings.TrimPrefix(uri, "file://")
 	if filepath.IsAbs(fileName) {
-		return fileName
+		return filepath.Clean(fileName)
 	}
 
 	return filepath.Join(filepath.Dir(parentURI), fileName)
